@@ -27,6 +27,14 @@ protected:
   std::map<std::string, std::string> unparsedArguments_;
 
 public:
+  /**
+   * @brief The largest number of classes ('n' argument) accepted by readDiscreteDistribution().
+   *
+   * The class count sizes several vectors; a description asking for more classes raises an
+   * Exception instead of allocating memory without bound.
+   */
+  static constexpr int MAX_NUMBER_OF_CLASSES = 1000000;
+
   BppODiscreteDistributionFormat(bool verbose = true) : verbose_(verbose), unparsedArguments_() {}
   virtual ~BppODiscreteDistributionFormat() {}
 
@@ -35,6 +43,13 @@ public:
 
   const std::string getFormatDescription() const { return "Bpp Options format."; }
 
+  /**
+   * @brief Read a discrete distribution from its description, e.g. "Gamma(n=4,alpha=0.5)".
+   *
+   * @throw Exception If the description is not well formed: unknown family, missing argument, a
+   * number of classes 'n' that is not an integer in [1, MAX_NUMBER_OF_CLASSES], a list argument
+   * (values, probas, ranges) that is not written between parentheses, an empty list of values.
+   */
   std::unique_ptr<DiscreteDistributionInterface> readDiscreteDistribution(const std::string& distDescription, bool parseArguments = true);
 
   const std::map<std::string, std::string>& getUnparsedArguments() const { return unparsedArguments_; }
